@@ -2,7 +2,7 @@
 
 proof:   Props/C15.v (RSI, Williams %R, stochastic %K ranges; Donchian ordering and enclosure; ATR and variance non-negative; SMA/EMA homogeneity) over
          the definitional models of Model/Indicators.v, for every input
-tie:     the definitional models evaluated in Coq against jesse.indicators (25 series, lattice inputs incl. constant/alternating/huge/tiny prices, periods 2..60)
+tie:     the definitional models evaluated in Coq against jesse.indicators (29 series, lattice inputs incl. constant/alternating/huge/tiny prices, periods 2..60)
 search:  range / ordering / enclosure / sign / scaling / selector monitors on the implementation for the property's whole list
 """
 import json
@@ -12,7 +12,8 @@ from . import ind
 
 PID = 'C15'
 THEOREMS = ['C15_rsi_in_range', 'C15_willr_in_range', 'C15_stoch_k_in_range', 'C15_donchian_ordered_and_enclosing', 'C15_atr_nonneg', 'C15_var_nonneg',
-            'C15_sma_homogeneous', 'C15_ema_homogeneous']
+            'C15_sma_homogeneous', 'C15_ema_homogeneous', 'C15_wma_homogeneous', 'C15_trima_homogeneous', 'C15_wilders_homogeneous', 'C15_dema_homogeneous',
+            'C15_tema_homogeneous', 'C15_macd_homogeneous', 'C15_mfi_in_range', 'C15_keltner_ordered']
 MA_SELECTOR = {0: 'sma', 1: 'ema', 2: 'wma', 3: 'dema', 4: 'tema', 5: 'trima', 6: 'kama', 9: 'fwma', 10: 'hma', 11: 'linearreg', 12: 'wilders', 13: 'sinwma', 14: 'supersmoother',
                15: 'supersmoother_3_pole', 16: 'gauss', 17: 'high_pass', 18: 'high_pass_2_pole', 20: 'jma', 21: 'reflex', 22: 'trendflex', 23: 'smma', 25: 'pwma', 26: 'swma',
                27: 'alma', 30: 'nma', 31: 'edcf', 33: 'maaq', 34: 'srwma', 35: 'sqwma', 36: 'vpwma', 37: 'cwma', 38: 'jsa', 39: 'epma'}
@@ -209,8 +210,8 @@ def monitor(tier, seed, progress):
 def run(tier, seed, replay=None):
     res = C.Result(PID, tier, seed)
     res.trusted = ['Coq 8.16.1 kernel + vm_compute', 'Model/Indicators.v (definitional models) tied by value correspondence', 'harness/c15.py, ind.py']
-    res.assumptions = ['agreement with the textbook definition is the Coq-evaluated correspondence of the 25 modelled series (exact rationals vs binary64, relative 1e-8); '
-                       'indicators that need square roots or are not modelled (stddev, Bollinger, Keltner, CCI, MFI, ADX family) are covered by the monitors only',
+    res.assumptions = ['agreement with the textbook definition is the Coq-evaluated correspondence of the 29 modelled series (exact rationals vs binary64, relative 1e-8); '
+                       'indicators that need square roots or are not modelled (stddev, Bollinger, CCI, ADX family; Keltner with a moving average other than the EMA) are covered by the monitors only',
                        'range theorems for candle-based oscillators assume low <= close <= high']
     C.standard_proof_step(res, 'Props.C15', THEOREMS, ['theories/Props/C15.vo', 'theories/Run/IndRun.vo'])
     rng = C.rng_for(seed, PID)
@@ -219,7 +220,7 @@ def run(tier, seed, replay=None):
     impl_err = [c for c in cases if 'error' in c and not (c['name'].startswith('donchian') and c['n'] < c['period'])]
     res.oblige('the core indicators ran on the generated series', not impl_err, json.dumps(impl_err[:2])[:500])
     res.oblige('correspondence: the definitional models = jesse.indicators (sma, ema, wma, trima, roc, mom, var, wilders, dema, tema, macd x3, rsi, atr, obv, donchian x3, willr, '
-               'stochf %K, typprice, medprice)', not bad, json.dumps([{k: b[k] for k in ('name', 'period', 'style', 'n')} for b in bad[:4]]))
+               'stochf %K, typprice, medprice, mfi, keltner x3)', not bad, json.dumps([{k: b[k] for k in ('name', 'period', 'style', 'n')} for b in bad[:4]]))
     mon = ind.run_child('c15', tier, seed)
     res.oblige('the monitors ran without crashing the interpreter', mon.get('crash') is None, json.dumps(mon.get('crash'))[:600])
     if mon.get('crash') is not None:
